@@ -247,7 +247,7 @@ def main():
             known_hit.append(nm); continue
         if nm in plock:
             violations.append((nm, r, o, 'obligation that was discharged on the unchanged tree now fails (%s)' % ','.join(o['results'])))
-        elif o['status'] == 'refuted' and o['kind'] not in ('reach', 'smoke', 'reachcall', 'overflow') and any(k.split('/')[0] == nm.split('/')[0] for k in plock):
+        elif o['status'] == 'refuted' and o['kind'] not in ('reach', 'smoke', 'reachcall', 'overflow', 'ghost.eval') and any(k.split('/')[0] == nm.split('/')[0] for k in plock):
             # an obligation that did not exist on the unchanged tree (a new path or statement) in a function all of whose obligations were
             # discharged there, refuted by the solver with a counter-model: the function no longer meets its contract
             violations.append((nm, r, o, 'new obligation of a function that was fully verified on the unchanged tree is refuted by the solver (%s)' % ','.join(o['results'])))
